@@ -353,7 +353,9 @@ class Executor(Engine):
                 xa = coerce(args[0], lt.elem).t
                 new = V(lt, lt.mk(z3.Store(arr, n, xa), n + 1))
                 et = lt.elem
-                if et in (INT, BOOL, STR) or isinstance(et, (TRec, TTuple, TAbs)):
+                # (not for lists of strings: a quantifier over all strings with string equalities only slows the sequence solver down,
+                #  and no function under contract asks `text in list_of_texts` after appending)
+                if et in (INT, BOOL) or isinstance(et, (TRec, TTuple, TAbs)):
                     # membership after append (a fact about `in`, stated for the Skolemised form used by expr.member)
                     y = V(et, fresh('y', et.sort()))
                     c3 = Ctx(st.env, spec=True, engine=self)
